@@ -7,16 +7,17 @@
 //! payload:
 //!   `B <max> <bps> <period_ms> <op>;…`  ops `a <ms>` advance | `c <bytes>` `consume(bytes)` |
 //!                                        `r <bytes>` consume unless the last `Err(deadline)` is still in the future
-//!   `R <cfg> <op>;…`                    ops `a <ms>` | `d <n>` n more bytes ready in the inner reader |
+//!   `R <cfg> <op>;…`                    ops `a <ms>` | `d <n>` n more bytes (position-dependent pattern) ready in the inner reader |
+//!                                        `e` inner reader at EOF after the ready bytes | `x <0..3>` inner reader fails after them |
 //!                                        `s <cfg>` live reconfiguration through the watch channel |
 //!                                        `w <ms> <buf>` `timeout(ms, reader.read(&mut [0; buf]))`
 //!   cfg = `none` | `<bps>,<burst>` | `<bps>,-`
 //! output: `new:invalid` | `new:ok <per-op result>…` | `bad-input`; per-op results
-//!   `ok` | `err:<deadline ms>` | `blocked` | `read:<n>:<ms waited>:<limited count>` | `pending:<limited count>` | `panic` (ends the case)
+//!   `ok` | `err:<deadline ms>` | `blocked` | `read:<n>:<ms waited>:<limited count>:<fnv32 of the bytes>` |
+//!   `eof:<ms waited>:<limited>` | `err:<kind>:<ms waited>:<limited>` | `pending:<limited count>` | `panic` (ends the case)
 use std::panic::{AssertUnwindSafe, catch_unwind};
 use std::pin::Pin;
 use std::sync::Arc;
-use std::sync::atomic::{AtomicU64, Ordering};
 use std::task::{Context, Poll};
 use std::time::Duration;
 
@@ -29,7 +30,7 @@ use vcommon::*;
 struct C09;
 
 const MAX_ADVANCE: u128 = 10_000_000_000_000;
-const MAX_AVAIL: u128 = 1 << 40;
+const MAX_AVAIL: u128 = 1 << 20;
 const MAX_BUF: u128 = 1 << 20;
 /// The relay's refill period (the statement's "refill accrued" is rate × time; the period only
 /// enters the oracle through the documented rule "at least one token per period").
@@ -52,6 +53,8 @@ enum BOp {
 enum ROp {
     Advance(u64),
     Data(u64),
+    Eof,
+    Fail(u8),
     Set(Option<Cfg>),
     Wait(u64, usize),
 }
@@ -137,6 +140,8 @@ fn parse(payload: &str) -> Option<Case> {
                 ops.push(match t.as_slice() {
                     ["a", ms] => ROp::Advance(nat_le(ms, MAX_ADVANCE)? as u64),
                     ["d", n] => ROp::Data(nat_le(n, MAX_AVAIL)? as u64),
+                    ["e"] => ROp::Eof,
+                    ["x", c] => ROp::Fail(nat_le(c, 3)? as u8),
                     ["s", c] => ROp::Set(cfg_of(c)?),
                     ["w", ms, buf] => ROp::Wait(nat_le(ms, MAX_ADVANCE)? as u64, nat_le(buf, MAX_BUF)? as usize),
                     _ => return None,
@@ -372,22 +377,90 @@ fn run_b(max: i64, bps: i64, pms: u128, ops: &[BOp]) -> Exec {
     })
 }
 
-/// In-memory inner reader: `avail` bytes ready; `Pending` when empty (no waker needed: new data
-/// only arrives between polls of the same task).
-struct Src(Arc<AtomicU64>);
+/// The inner reader's byte at stream position `i`: position-dependent, so that dropped,
+/// duplicated or reordered bytes show.
+fn pattern(i: u64) -> u8 {
+    ((i * 131 + (i / 256) * 17 + 7) % 256) as u8
+}
+
+const KINDS: [std::io::ErrorKind; 4] = [
+    std::io::ErrorKind::ConnectionReset,
+    std::io::ErrorKind::UnexpectedEof,
+    std::io::ErrorKind::Other,
+    std::io::ErrorKind::BrokenPipe,
+];
+
+#[derive(Clone, Copy, PartialEq, Debug)]
+enum Tail {
+    Open,
+    Eof,
+    Err(u8),
+}
+
+#[derive(Debug)]
+struct SrcState {
+    /// stream position of the next byte the reader will hand out
+    pos: u64,
+    /// bytes ready
+    avail: u64,
+    /// what follows the ready bytes
+    tail: Tail,
+    /// number of times `poll_read` was called on the inner reader
+    polls: u64,
+}
+
+/// In-memory inner reader: `avail` bytes of the pattern ready; once they are used up `Pending`
+/// (no waker needed: new data only arrives between polls of the same task), end of stream or
+/// an error.
+struct Src(Arc<std::sync::Mutex<SrcState>>);
 
 impl AsyncRead for Src {
     fn poll_read(self: Pin<&mut Self>, _cx: &mut Context<'_>, buf: &mut ReadBuf<'_>) -> Poll<std::io::Result<()>> {
-        let avail = self.0.load(Ordering::Relaxed);
-        if avail == 0 {
-            return Poll::Pending;
+        let mut st = self.0.lock().expect("lock");
+        st.polls += 1;
+        if st.avail == 0 {
+            return match st.tail {
+                Tail::Open => Poll::Pending,
+                Tail::Eof => Poll::Ready(Ok(())),
+                Tail::Err(c) => Poll::Ready(Err(std::io::Error::new(KINDS[c as usize], "verif inner error"))),
+            };
         }
-        let n = (buf.remaining() as u64).min(avail);
-        buf.initialize_unfilled_to(n as usize).fill(0x42);
+        let n = (buf.remaining() as u64).min(st.avail);
+        let pos = st.pos;
+        for (k, b) in buf.initialize_unfilled_to(n as usize).iter_mut().enumerate() {
+            *b = pattern(pos + k as u64);
+        }
         buf.advance(n as usize);
-        self.0.store(avail - n, Ordering::Relaxed);
+        st.avail -= n;
+        st.pos += n;
         Poll::Ready(Ok(()))
     }
+}
+
+fn fnv32(bs: &[u8]) -> u32 {
+    let mut h: u32 = 2166136261;
+    for b in bs {
+        h = (h ^ *b as u32).wrapping_mul(16777619);
+    }
+    h
+}
+
+/// Content oracle: the bytes handed to the caller must be the inner stream's bytes at
+/// positions `delivered..delivered+n`.  Classifies a mismatch.
+fn check_content(got: &[u8], delivered: u64) -> Option<(&'static str, String)> {
+    let ok = got.iter().enumerate().all(|(k, b)| *b == pattern(delivered + k as u64));
+    if ok {
+        return None;
+    }
+    // where in the stream do these bytes come from?
+    for off in 0..(delivered + got.len() as u64 + 4096) {
+        if off != delivered && got.iter().enumerate().all(|(k, b)| *b == pattern(off + k as u64)) {
+            let class = if off < delivered { "content-duplicated" } else { "content-dropped" };
+            return Some((class, format!("bytes of stream offset {off} handed over at offset {delivered}")));
+        }
+    }
+    let k = got.iter().enumerate().position(|(k, b)| *b != pattern(delivered + k as u64)).unwrap_or(0);
+    Some(("content-altered", format!("byte {k} of the chunk at stream offset {delivered} is {:#04x}, inner reader gave {:#04x}", got[k], pattern(delivered + k as u64))))
 }
 
 fn to_limit(c: Option<Cfg>) -> Option<ClientRateLimit> {
@@ -409,9 +482,9 @@ fn run_r(cfg0: Option<Cfg>, ops: &[ROp]) -> Exec {
         let mut ex = Exec::default();
         let start = Instant::now();
         let mut out: Vec<String> = Vec::new();
-        let avail = Arc::new(AtomicU64::new(0));
+        let src = Arc::new(std::sync::Mutex::new(SrcState { pos: 0, avail: 0, tail: Tail::Open, polls: 0 }));
         let (tx, rx) = tokio::sync::watch::channel(to_limit(cfg0));
-        let mut reader = match RateLimitedReader::from_watcher(Src(avail.clone()), rx) {
+        let mut reader = match RateLimitedReader::from_watcher(Src(src.clone()), rx) {
             Ok(r) => r,
             Err(_) => {
                 if cfg0.is_some_and(|c| cfg_valid(&c)) || cfg0.is_none() {
@@ -452,6 +525,9 @@ fn run_r(cfg0: Option<Cfg>, ops: &[ROp]) -> Exec {
         let mut reconfigs = 0u32;
         let mut last_poll: u128 = 0;
         let mut exact = true;
+        // bytes handed to the caller so far (= stream offset the next chunk must start at)
+        let mut delivered: u64 = 0;
+        let mut any_terminal = false;
         let buf_len = ops.iter().map(|o| if let ROp::Wait(_, b) = o { *b } else { 0 }).max().unwrap_or(0);
         let mut buf = vec![0u8; buf_len];
         for (i, op) in ops.iter().enumerate() {
@@ -462,7 +538,15 @@ fn run_r(cfg0: Option<Cfg>, ops: &[ROp]) -> Exec {
                     out.push("ok".into());
                 }
                 ROp::Data(n) => {
-                    avail.fetch_add(*n, Ordering::Relaxed);
+                    src.lock().expect("lock").avail += *n;
+                    out.push("ok".into());
+                }
+                ROp::Eof => {
+                    src.lock().expect("lock").tail = Tail::Eof;
+                    out.push("ok".into());
+                }
+                ROp::Fail(c) => {
+                    src.lock().expect("lock").tail = Tail::Err(*c);
                     out.push("ok".into());
                 }
                 ROp::Set(c) => {
@@ -483,19 +567,56 @@ fn run_r(cfg0: Option<Cfg>, ops: &[ROp]) -> Exec {
                             ex.tags.push("R-invalid-live-update-ignored".into());
                         }
                     }
-                    let had = avail.load(Ordering::Relaxed);
+                    let (had, tail, pos0, polls0) = {
+                        let st = src.lock().expect("lock");
+                        (st.avail, st.tail, st.pos, st.polls)
+                    };
                     let res = tokio::time::timeout(Duration::from_millis(*ms), reader.read(&mut buf[..*bufsz])).await;
                     let t1 = ms_since(start, Instant::now());
                     let limited = reader.limited_count();
+                    let (pos1, polls1) = {
+                        let st = src.lock().expect("lock");
+                        (st.pos, st.polls)
+                    };
+                    // a read ends the no-wrap regime if the gap since the last one is 2^32 − period ms or more
+                    if res.is_ok() && t1 - last_poll + RELAY_PERIOD_MS >= (1 << 32) {
+                        exact = false;
+                    }
+                    let has_ideal = ideal.is_some();
+                    let wait_end = now + *ms as u128;
+                    // is the reader entitled to poll the inner reader by time `t`?
+                    let due_by = move |t: u128| !has_ideal || resume_at.is_none() || (exact && resume_at.is_some_and(|r| r <= t));
+                    let too_late =
+                        move |t1: u128| exact && has_ideal && resume_at.is_some_and(|r| r <= wait_end && t1 > r.max(now));
                     match res {
                         Ok(Ok(n)) => {
-                            any_read = true;
-                            out.push(format!("read:{n}:{}:{limited}", t1 - now));
+                            let got = &buf[..n];
+                            // content + order: exactly the next bytes of the inner stream
+                            if let Some((class, detail)) = check_content(got, delivered) {
+                                ex.violation(class, format!("op {i}: {detail}"));
+                            }
+                            // nothing kept back: everything taken from the inner reader was handed over
+                            if pos1 != delivered + n as u64 || pos1 != pos0 + n as u64 {
+                                ex.violation("bytes-kept-back", format!("op {i}: inner reader at offset {pos1}, caller got {} bytes in total", delivered + n as u64));
+                            }
+                            delivered += n as u64;
+                            let is_eof = n == 0 && *bufsz > 0;
+                            if is_eof {
+                                any_terminal = true;
+                                out.push(format!("eof:{}:{limited}", t1 - now));
+                                // EOF placement: only after every byte, only when the inner reader is at EOF
+                                if had > 0 || tail != Tail::Eof {
+                                    ex.violation("spurious-eof", format!("op {i}: Ok(0) with {had} bytes ready, inner tail {tail:?}"));
+                                }
+                                if too_late(t1) {
+                                    ex.violation("terminal-delayed", format!("op {i}: EOF at {t1}, wait over at {resume_at:?}"));
+                                }
+                            } else {
+                                any_read = true;
+                                out.push(format!("read:{n}:{}:{limited}:{:08x}", t1 - now, fnv32(got)));
+                            }
                             if n as u64 != had.min(*bufsz as u64) {
                                 ex.violation("short-read", format!("op {i}: read {n} of {had} ready into {bufsz}"));
-                            }
-                            if t1 - last_poll + RELAY_PERIOD_MS >= (1 << 32) {
-                                exact = false;
                             }
                             last_poll = t1;
                             if let Some(o) = oracle.as_mut() {
@@ -507,7 +628,7 @@ fn run_r(cfg0: Option<Cfg>, ops: &[ROp]) -> Exec {
                                     ex.violation("resume-too-early", format!("op {i}: read at {t1}, refilled enough at {resume_at:?}"));
                                 }
                                 // … and, with data ready and time to wait, no later
-                                if exact && had > 0 && resume_at.is_some_and(|r| r <= now + *ms as u128 && t1 > r.max(now)) {
+                                if had > 0 && too_late(t1) {
                                     ex.violation("resume-too-late", format!("op {i}: read at {t1}, refilled enough at {resume_at:?}"));
                                 }
                                 resume_at = id.consume(n as u128, t1);
@@ -517,22 +638,50 @@ fn run_r(cfg0: Option<Cfg>, ops: &[ROp]) -> Exec {
                             }
                         }
                         Ok(Err(e)) => {
-                            ex.violation("io-error", format!("op {i}: {e}"));
-                            out.push("ioerr".into());
+                            any_terminal = true;
+                            let code = KINDS.iter().position(|k| *k == e.kind()).unwrap_or(9);
+                            out.push(format!("err:{code}:{}:{limited}", t1 - now));
+                            // errors pass through unchanged, only after every byte, not delayed
+                            match tail {
+                                Tail::Err(c) if had == 0 => {
+                                    if c as usize != code || e.to_string() != "verif inner error" {
+                                        ex.violation("error-altered", format!("op {i}: inner error kind {c}, caller saw {e:?}"));
+                                    }
+                                }
+                                _ => ex.violation("spurious-error", format!("op {i}: {e:?} with {had} bytes ready, inner tail {tail:?}")),
+                            }
+                            if pos1 != pos0 {
+                                ex.violation("bytes-kept-back", format!("op {i}: error result but inner reader advanced to {pos1}"));
+                            }
+                            if too_late(t1) {
+                                ex.violation("terminal-delayed", format!("op {i}: error at {t1}, wait over at {resume_at:?}"));
+                            }
+                            if exact && has_ideal && resume_at.is_some_and(|r| t1 < r) {
+                                ex.violation("resume-too-early", format!("op {i}: inner polled at {t1}, refilled enough at {resume_at:?}"));
+                            }
+                            if !has_ideal && t1 != now {
+                                ex.violation("unlimited-delayed", format!("op {i}: unlimited read waited {} ms", t1 - now));
+                            }
                         }
                         Err(_) => {
                             out.push(format!("pending:{limited}"));
                             if t1 != now + *ms as u128 {
                                 ex.violation("clock", format!("op {i}: waited {} instead of {ms}", t1 - now));
                             }
-                            // no stall: data ready, bucket refilled enough within the wait ⇒ must have read
-                            let due = match (&ideal, resume_at) {
-                                (None, _) => true,
-                                (Some(_), None) => true,
-                                (Some(_), Some(r)) => exact && r <= t1,
-                            };
-                            if had > 0 && due {
-                                ex.violation("stalled", format!("op {i}: {had} bytes ready, refilled enough at {resume_at:?}, still pending at {t1}"));
+                            // a pending poll takes nothing from the inner reader
+                            if pos1 != pos0 {
+                                ex.violation("pending-consumed-inner", format!("op {i}: pending, but inner reader advanced {pos0} -> {pos1}"));
+                            }
+                            // while throttled the inner reader is not even polled
+                            if exact && has_ideal && resume_at.is_some_and(|r| t1 < r) && polls1 != polls0 {
+                                ex.violation("throttled-polled-inner", format!("op {i}: inner reader polled at {t1} before {resume_at:?}"));
+                            }
+                            // no stall: data / EOF / error ready and the wait over ⇒ must have returned it
+                            if (had > 0 || tail != Tail::Open) && due_by(t1) {
+                                ex.violation(
+                                    if had > 0 { "stalled" } else { "terminal-delayed" },
+                                    format!("op {i}: {had} bytes ready, tail {tail:?}, refilled enough at {resume_at:?}, still pending at {t1}"),
+                                );
                             }
                         }
                     }
@@ -547,6 +696,9 @@ fn run_r(cfg0: Option<Cfg>, ops: &[ROp]) -> Exec {
         }
         if reconfigs > 0 {
             ex.tags.push("R-live-reconfig".into());
+        }
+        if any_terminal {
+            ex.tags.push("R-eof-or-error".into());
         }
         ex
     })
@@ -658,11 +810,12 @@ fn gen_cfg(rng: &mut Rng) -> String {
 
 fn gen_r(rng: &mut Rng, len_cap: u64) -> String {
     let n = rng.range(2, len_cap);
-    let mut ops = vec![format!("d {}", rng.range(1, 1 << 22))];
+    let mut ops = vec![format!("d {}", rng.range(1, 1 << 13))];
     for _ in 0..n {
         ops.push(match rng.below(20) {
             0..=2 => format!("a {}", pick_advance(rng, 100).min(if rng.chance(1, 10) { u64::MAX } else { 100_000 })),
-            3..=5 => format!("d {}", match rng.below(4) { 0 => 0, 1 => 1, 2 => rng.range(0, 1 << 30), _ => rng.range(0, 20_000) }),
+            3..=5 => format!("d {}", match rng.below(50) { 0..=2 => 0, 3..=5 => 1, 6 => rng.range(0, 1 << 17), 7..=11 => rng.range(0, 20_000), _ => rng.range(0, 3_000) }),
+            6 if rng.chance(1, 3) => if rng.chance(2, 3) { "e".to_string() } else { format!("x {}", rng.below(4)) },
             6..=7 => format!("s {}", gen_cfg(rng)),
             _ => format!(
                 "w {} {}",
@@ -696,11 +849,15 @@ impl Prop for C09 {
             "R 1000,- d 5000;w 0 4096;w 0 4096;w 10000 50;s 20,1;w 0 10;w 5000 10",
             "R none d 100000;w 0 4096;s 12345,1234;w 0 4096;w 0 4096;w 100000 4096;s 5,-;w 100000 4096;s none;w 0 4096",
             "R 9,- d 1",
-            "R 4294967295,4294967295 d 1099511627776;w 0 1048576;a 4294967296;w 0 1048576",
+            "R 4294967295,4294967295 d 1048576;w 0 1048576;a 4294967296;d 1048576;w 0 1048576",
+            // content, EOF and errors: EOF waits for the throttle deadline, then errors pass at once
+            "R 1000,- d 5000;w 0 4096;w 0 4096;w 10000 50;s 20,1;w 0 10;w 5000 10;e;w 100000 4096;w 100000 4096;w 0 0;x 2;w 100000 7",
+            "R none d 10;e;w 0 4;w 0 4;w 0 4;w 0 4;x 0;w 5 4",
+            "R 100,10 d 300;x 3;w 0 300;w 0 8;w 2999 8;w 1 8;w 0 8",
         ] {
             out.push(s.to_string());
         }
-        for s in ["", "B", "B 1 1 1", "B 1 1 x a 1", "B 9223372036854775808 1 1 a 1", "R 0,- d 1", "R 1,0 d 1", "R 1 d 1", "R none w 1", "R none w 1 1048577", "Q 1", "B 1 1 1 a 1;;a 1"] {
+        for s in ["", "B", "B 1 1 1", "B 1 1 x a 1", "B 9223372036854775808 1 1 a 1", "R 0,- d 1", "R 1,0 d 1", "R 1 d 1", "R none w 1", "R none w 1 1048577", "R none d 1048577", "R none x 4", "R none e 1", "Q 1", "B 1 1 1 a 1;;a 1"] {
             out.push(s.to_string());
         }
         let len_cap = if tier == Tier::Thorough { 60 } else { 30 };
